@@ -151,7 +151,7 @@ aggregateLoop:
 					Type:           assertedExprType,
 					TypeAssertion: &physical.TypeAssertion{
 						Expression: expressions[i],
-						TargetType: descriptor.ArgumentType,
+						TargetType: octosql.TypeSum(descriptor.ArgumentType, octosql.Null),
 					},
 				}
 
